@@ -62,9 +62,9 @@ impl Engine for ModelEngine {
   }
   fn probes(&self) -> Vec<&'static str> {
     match self.flavour {
-      Flavour::C04 => vec!["op.commit", "op.rollback", "op.reopen", "op.compact", "probe.old_reader_checked", "probe.long_documents", "probe.large_id_space_runs"],
+      Flavour::C04 => vec!["op.commit", "op.rollback", "op.reopen", "op.compact", "probe.old_reader_checked", "probe.long_documents", "probe.large_id_space_runs", "probe.partial_rollbacks"],
       Flavour::C14 => vec!["probe.compaction_merged", "probe.compaction_refused", "probe.queries_compared", "probe.long_documents", "probe.large_id_space_runs"],
-      Flavour::C28 => vec!["op.relocate", "probe.original_listing_checked"],
+      Flavour::C28 => vec!["op.relocate", "probe.original_listing_checked", "probe.copy_opened_through_storage_of_original_root"],
     }
   }
 }
@@ -145,9 +145,9 @@ impl Engine for CrashEngine {
   }
   fn probes(&self) -> Vec<&'static str> {
     if self.c02 {
-      vec!["fault.crash", "fault.crash_torn_log_tail", "probe.crash_with_queued_ops_on_disk", "probe.crash_published_inflight_commit", "checks.recovery", "probe.long_documents", "probe.large_id_space_runs"]
+      vec!["fault.crash", "fault.crash_torn_log_tail", "probe.crash_with_queued_ops_on_disk", "probe.crash_published_inflight_commit", "checks.recovery", "probe.long_documents", "probe.partial_rollbacks"]
     } else {
-      vec!["fault.crash", "probe.crash_published_inflight_commit", "image.torn", "image.dev_journal_short", "probe.long_documents", "probe.large_id_space_runs"]
+      vec!["fault.crash", "probe.crash_published_inflight_commit", "image.torn", "image.dev_journal_short", "probe.long_documents", "probe.large_id_space_runs", "probe.partial_rollbacks"]
     }
   }
 }
@@ -336,7 +336,7 @@ impl Engine for SchedEngine {
   }
   fn probes(&self) -> Vec<&'static str> {
     if self.reader_heavy {
-      vec!["probe.context_switches", "probe.lock_waits", "probe.reader_histories_checked", "probe.reader_with_concurrent_compaction"]
+      vec!["probe.context_switches", "probe.lock_waits", "probe.reader_histories_checked", "probe.reader_with_concurrent_compaction", "probe.in_memory_storage_runs"]
     } else {
       vec!["probe.context_switches", "probe.lock_waits", "probe.linearization_states"]
     }
